@@ -1,7 +1,7 @@
 PROP = dict(
     unclaimed=True,
     module="M3d.Props.C10",
-    corr=dict(quick=120, thorough=500),
+    corr=dict(quick=300, thorough=600),
     gen=[],
     corr_theorems="M3d.C10.closed_manifold_decider_correct / closed_curves_decider_correct (the deciders run on the real outputs), placement models of M3d.MeshOps",
     rule="chains of <= 6 real operations on generated closed manifolds; distinct = distinct operation lines",
